@@ -43,6 +43,8 @@ CONSTANTS NOrig, NTrim,   \* original state ids 0..NOrig-1, trimmed ids 0..NTrim
           MaxPairs,       \* longest list of pairs handed to the constructor / to ==
           Depth,          \* history length
           Emit,
+          OpBudget,       \* 0 = unlimited; k > 0: no operation kind more than k times in a history (Construct and EqList
+                          \* have by far the most instances and would dominate a uniformly chosen simulated walk)
           Variants,       \* TRUE: every container form / entry point of an operation is a step of its own
                           \* (they lead to the same state, so they only matter when histories are enumerated
                           \* without the VIEW); FALSE: one representative
@@ -176,7 +178,8 @@ Init == /\ live = {}
 
 (* Log is the LAST conjunct of every action: it extends the history and records the observation
    of the successor state (all other primed variables are determined by then) *)
-Log(op) == /\ hist' = Append(hist, op)
+Log(op) == /\ (OpBudget = 0 \/ Cardinality({j \in DOMAIN hist : hist[j].op = op.op}) < OpBudget)
+           /\ hist' = Append(hist, op)
            /\ trail' = Append(trail, Obs(live', abs', disk', res'))
 CanStep == Len(hist) < Depth
 Bind(s, P, d) == /\ live' = live \cup {s}
@@ -335,10 +338,6 @@ UniverseLaws == (hist = <<>>) =>
                         /\ \A q \in SetToSeqs(P) : DictOf(Swap(q)) = DictOf(Swap(SortedPairs(P)))   \* pair order irrelevant
   /\ \A P, Q \in InjMaps : EqImpl(DictOf(Swap(SortedPairs(P))), DictOf(Swap(SortedPairs(Q)))) = (P = Q)
   /\ \A file \in Foreign : ReadOk(file) => ItemSet(ReadImpl(file)) = OriginalOf(ReadAbs(file))
-
-(* state constraint for simulated walks: no operation kind more than three times (Construct and EqList have by far
-   the most instances and would otherwise dominate a uniformly chosen walk) *)
-Balanced3 == \A i \in DOMAIN hist : Cardinality({j \in DOMAIN hist : hist[j].op = hist[i].op}) <= 3
 
 (* ---- emission ------------------------------------------------------------------------------------------ *)
 (* Views hiding the history from the fingerprint.  HistView: one history per distinct state and depth
